@@ -138,6 +138,12 @@ func cmdDump(args []string) int {
 		if r.tr == nil {
 			continue
 		}
+		for _, w := range r.tr.warns {
+			if !seenErr[w] {
+				seenErr[w] = true
+				fmt.Println("WARNING:", w)
+			}
+		}
 		var wg sync.WaitGroup
 		for i, o := range r.tr.obls {
 			if *match != "" && !strings.Contains(o.Name, *match) {
